@@ -595,3 +595,80 @@ func cmdGoChan(args []string) error {
 }
 
 func init() { register("gochan", cmdGoChan) }
+
+// ---------------------------------------------------------------------------------------------
+// D9 (known finding of C05): BlockPublishUntilSubscriberAck, a consumer that publishes (to the
+// same GoChannel) before it acks, while a Subscribe call is pending.  The blocking Publish holds
+// the read lock while it waits for the Ack; the pending Subscribe has announced a writer; Go
+// blocks new readers behind an announced writer, so the consumer's Publish never gets the read
+// lock: nobody can move until the Pub/Sub is closed.
+
+type gcD9Result struct {
+	NestedPublishReturned bool           `json:"nested_publish_returned"`
+	OuterPublishReturned  bool           `json:"outer_publish_returned"`
+	SubscribeReturned     bool           `json:"subscribe_returned"`
+	ReleasedByClose       bool           `json:"released_by_close"`
+	Events                []hookrt.Event `json:"events"`
+}
+
+func cmdGoChanD9(args []string) error {
+	fs, out, seed := newFlags("gochan-d9")
+	fs.Parse(args)
+	rt := hookrt.Install(*seed)
+	defer hookrt.Uninstall()
+	rt.Reset()
+	rt.Filter(func(point string, keys []string) bool {
+		return strings.HasPrefix(point, "gochannel.") || strings.HasPrefix(point, "api.")
+	})
+	ps := gochannel.NewGoChannel(gochannel.Config{BlockPublishUntilSubscriberAck: true}, watermill.NopLogger{})
+	ch, err := ps.Subscribe(context.Background(), "topic-0")
+	if err != nil {
+		return err
+	}
+	res := &gcD9Result{}
+	outerDone := make(chan struct{})
+	nestedDone := make(chan struct{})
+	subDone := make(chan struct{})
+	go func() {
+		rt.Stamp("api.d9.outer_publish.call")
+		ps.Publish("topic-0", gcMakeMsg(1))
+		rt.Stamp("api.d9.outer_publish.ret")
+		close(outerDone)
+	}()
+	m := <-ch // the consumer holds message 1 unsettled
+	go func() {
+		rt.Stamp("api.d9.subscribe.call")
+		ps.Subscribe(context.Background(), "topic-1")
+		rt.Stamp("api.d9.subscribe.ret")
+		close(subDone)
+	}()
+	// wait until the Subscribe has requested the write lock (it cannot get it: the outer Publish reads)
+	decoWaitCount(rt, "gochannel.subscribe.wrequest", 2, 2*time.Second)
+	time.Sleep(50 * time.Millisecond) // wrequest is stamped before Lock(): let the writer announce itself
+	go func() {
+		rt.Stamp("api.d9.nested_publish.call")
+		ps.Publish("topic-1", gcMakeMsg(2)) // the consumer publishes BEFORE acking
+		rt.Stamp("api.d9.nested_publish.ret")
+		close(nestedDone)
+		m.Ack()
+	}()
+	waited := func(c chan struct{}, d time.Duration) bool {
+		select {
+		case <-c:
+			return true
+		case <-time.After(d):
+			return false
+		}
+	}
+	res.NestedPublishReturned = waited(nestedDone, 1500*time.Millisecond)
+	res.OuterPublishReturned = waited(outerDone, 10*time.Millisecond)
+	res.SubscribeReturned = waited(subDone, 10*time.Millisecond)
+	rt.Stamp("api.d9.verdict")
+	closed := make(chan struct{})
+	go func() { ps.Close(); close(closed) }()
+	res.ReleasedByClose = waited(closed, 3*time.Second) && waited(nestedDone, time.Second) && waited(outerDone, time.Second)
+	res.Events = rt.Log()
+	return writeJSON(*out, res)
+}
+
+func init() { register("gochan-d9", cmdGoChanD9) }
